@@ -65,9 +65,7 @@ func c05Run(c *Ctx) {
 	if isBool {
 		ndef = 0
 	}
-	if !multi && ndef > 1 {
-		ndef = 1
-	}
+	// (a scalar with two default tags ends with the last one)
 
 	d := &Decl{Options: flags.Options([]flags.Options{0, flags.PassDoubleDash, flags.HelpFlag}[r.Intn(3)])}
 	d.EnvDelim = []string{"", "_", "__", "-"}[r.Intn(4)]
